@@ -198,6 +198,7 @@ func (l *Log) addChainOrPreChain(ctx context.Context, reqBody io.ReadCloser, che
 	}
 
 	waitLeaf, source := l.addLeafToPool(ctx, e, lowPriority)
+	verifSubmitted(ctx, source)
 	labels["source"] = source
 	waitTimer := prometheus.NewTimer(l.m.AddChainWait)
 	seq, err := waitLeaf(ctx)
